@@ -6,7 +6,8 @@ def suites : List (String × Suite) := [
   ("c06", Tally.Drv.C06.suite),
   ("c01", Tally.Drv.C01.suite),
   ("c02", Tally.Drv.C02.suite),
-  ("scope", Tally.Drv.Scope.suite)
+  ("scope", Tally.Drv.Scope.suite),
+  ("c19", Tally.Drv.C19.suite)
 ]
 
 partial def loop (inp : IO.FS.Stream) (out : IO.FS.Stream) (s : Suite) (st : s.σ) : IO Unit := do
